@@ -30,20 +30,23 @@ int main(void)
 {
     ir2c_global_ctors();
     u32 thr0 = in_range(0, 5), thr1 = in_range(0, 5);
+    u32 rep = VAR_REPEAT(MINIDX, FILT, SEV); u32 thr0b = 0, thr1b = 0;
+    if (rep) { thr0b = in_range(0, 5); thr1b = in_range(0, 5); }
     u32 form = VAR_FORM(MINIDX, FILT, SEV), with_tag = VAR_TAG(MINIDX, FILT, SEV), nlazy = VAR_NLAZY(MINIDX, FILT, SEV);   /* enumerated outside the solver */
     (void)form;
     u8 a[3] = { in_u8(), in_u8(), 0 }; u8 b[2] = { in_u8(), 0 }; u8 c = in_ch(); u32 n = in_range(0, 99);
     u32 al = a[0] ? (a[1] ? 2 : 1) : 0, bl = b[0] ? 1 : 0;
-    LOG_STMT(FILT, SEV, thr0, thr1, a, n, c, b);
+    LOG_STMT(FILT, SEV, thr0, thr1, thr0b, thr1b, a, n, c, b);
     int en1 = SEV >= MINIDX && filter_spec(FILT, thr0, thr1, SEV);
     int en2 = SEV2 < 6 && SEV2 >= MINIDX && filter_spec(FILT, thr0, thr1, SEV2);
     u32 inner = (form == 2 && en1) ? 1u : 0u;     /* FORM 2: the statement issued while the named stream is open completes first */
-    u32 want = (u32)en1 + (u32)en2 + inner;
+    int en3 = rep && SEV >= MINIDX && filter_spec(FILT, thr0b, thr1b, SEV);     /* the filter verdict follows the thresholds in force when the statement runs */
+    u32 want = (u32)en1 + (u32)en2 + inner + (u32)en3;
     CHECK(g_nsink_a == want && g_nfmt == want, "C05: one record reaches the formatter and the sink exactly once iff severity >= compile-time minimum and the runtime filter expression accepts it; otherwise nothing does");
     CHECK(g_nsink_b == want, "C05: a sequence sink forwards the record once to each member");
     int order_ok = g_order_n == 2 * want; for (u32 i = 0; i < 2 * want && i < 8; ++i) if (g_order[i] != (i % 2 ? 2u : 1u)) order_ok = 0;
     CHECK(order_ok, "C05: sequence members are called in declaration order, records in program order");
-    CHECK(g_nlazy == (en1 ? nlazy : 0), "C10: a callable streamed for lazy evaluation is called exactly once if the record is emitted and never otherwise");
+    CHECK(g_nlazy == (en1 ? nlazy : 0) + (en3 ? 1u : 0u), "C10: a callable streamed for lazy evaluation is called exactly once if the record is emitted and never otherwise");
     if (en1) {
         u8 e[12]; u32 el = 0;
         if (nlazy == 2) e[el++] = 'L';
@@ -63,6 +66,11 @@ int main(void)
         u32 k = (en1 ? 1 : 0) + inner;
         CHECK(g_sev[k] == SEV2 && g_len[k] == 3 && g_msg[k][0] == '2' && g_msg[k][1] == '0' && g_msg[k][2] == '!', "C05: records of one thread arrive in program order");
     }
+    if (en3) {
+        u32 k = (en1 ? 1 : 0) + inner + (en2 ? 1 : 0);
+        CHECK(g_sev[k] == SEV && g_len[k] == 4 && g_msg[k][0] == '3' && g_msg[k][1] == '0' && g_msg[k][2] == 'L' && g_msg[k][3] == '#', "C05: a statement issued after the runtime thresholds changed is delivered unaltered");
+    }
+    if (rep) { WITNESS_AT(en1 && !en3, "emitted, then disabled by a threshold change"); WITNESS_AT(!en1 && en3, "disabled, then enabled by a threshold change"); }
     WITNESS_AT(en1, "statement emitted");
     WITNESS_AT(!en1, "statement disabled");
     OBS("nfmt=%u a=%u b=%u lazy=%u order=%u sev=%u len=%u\n", g_nfmt, g_nsink_a, g_nsink_b, g_nlazy, g_order_n, g_sev[0], g_len[0]); OBS_STR("msg", g_msg[0], g_len[0] < 11 ? g_len[0] : 11);
